@@ -43,6 +43,11 @@ var pureFuncs = map[string]bool{
 	"(time.Time).Unix": true, "(time.Time).UnixNano": true, "time.Since": true, "(time.Time).Add": true,
 }
 
+// pureIfaceMethods: interface methods assumed to only read their arguments (database getters)
+var pureIfaceMethods = map[string]bool{
+	"(pkg/trie/db.DBGetter).Get": true, "(pkg/trie/db.Database).Get": true, "(error).Error": true,
+}
+
 var ctorFuncs = map[string]bool{"crypto/aes.NewCipher": true, "crypto/cipher.NewGCM": true}
 
 func isNoEffect(fn *ssa.Function) bool {
@@ -426,13 +431,61 @@ func DefaultModels() map[string]Model {
 	}
 	m["math/big.NewInt"] = func(x *Exec, fr *Frame, st *State, args []Value, pos token.Pos) []Outcome {
 		r := x.newRef(st, "bigint")
-		x.setGhost(st, "bigval:"+r.String(), x.define(st, "bigval", SignExt(args[0].L[0], 128)))
+		// sign and magnitude: bigval is |x|, bigneg is x < 0
+		neg := BVCmp("bvslt", args[0].L[0], BVLit64(0, 64))
+		x.setGhost(st, "bigval:"+r.String(), x.define(st, "bigval", ZeroExt(Ite(neg, BVBin("bvsub", BVLit64(0, 64), args[0].L[0]), args[0].L[0]), 128)))
+		x.setGhost(st, "bigneg:"+r.String(), x.define(st, "bigneg", neg))
 		return retOne(st, Value{T: bigT(x), L: []*Term{r}})
+	}
+	// Cmp, Sign, Int64, Uint64, IsUint64 over the tracked sign and magnitude (values below 2^128)
+	bigSM := func(x *Exec, st *State, p Value) (*Term, *Term) {
+		return x.ghostGet(st, "bigval:"+p.L[0].String()), x.ghostGet(st, "bigneg:"+p.L[0].String())
+	}
+	m["(*math/big.Int).Cmp"] = func(x *Exec, fr *Frame, st *State, args []Value, pos token.Pos) []Outcome {
+		x.oblige(fr, st, "nil", x.src(fr.fn, pos, "bigint")+"(recv)", pos, And(Not(Eq(args[0].L[0], IntLit(0))), Not(Eq(args[1].L[0], IntLit(0)))))
+		am, an := bigSM(x, st, args[0])
+		bm, bn := bigSM(x, st, args[1])
+		an2, bn2 := And(an, Not(Eq(am, BVLit64(0, 128)))), And(bn, Not(Eq(bm, BVLit64(0, 128))))
+		lt := Or(And(an2, Not(bn2)), And(Not(an2), Not(bn2), BVCmp("bvult", am, bm)), And(an2, bn2, BVCmp("bvugt", am, bm)))
+		eq := And(Eq(an2, bn2), Eq(am, bm))
+		x.c.note("assumed: big.Int.Cmp compares the tracked values (values below 2^128)")
+		return retOne(st, scalar(tInt, x.define(st, "bigcmp", Ite(eq, BVLit64(0, 64), Ite(lt, BVLit64(-1, 64), BVLit64(1, 64))))))
+	}
+	m["(*math/big.Int).Sign"] = func(x *Exec, fr *Frame, st *State, args []Value, pos token.Pos) []Outcome {
+		x.oblige(fr, st, "nil", x.src(fr.fn, pos, "bigint")+"(recv)", pos, Not(Eq(args[0].L[0], IntLit(0))))
+		am, an := bigSM(x, st, args[0])
+		return retOne(st, scalar(tInt, Ite(Eq(am, BVLit64(0, 128)), BVLit64(0, 64), Ite(an, BVLit64(-1, 64), BVLit64(1, 64)))))
+	}
+	for _, meth := range []string{"Int64", "Uint64"} {
+		meth := meth
+		m["(*math/big.Int)."+meth] = func(x *Exec, fr *Frame, st *State, args []Value, pos token.Pos) []Outcome {
+			x.oblige(fr, st, "nil", x.src(fr.fn, pos, "bigint")+"(recv)", pos, Not(Eq(args[0].L[0], IntLit(0))))
+			am, an := bigSM(x, st, args[0])
+			low := Extract(63, 0, am)
+			T := types.Typ[types.Int64]
+			if meth == "Uint64" {
+				T = types.Typ[types.Uint64]
+			}
+			x.c.note("assumed: big.Int.Int64/Uint64 return the low 64 bits of the value (two's complement for negative values)")
+			return retOne(st, scalar(T, x.define(st, "bigint64", Ite(an, BVBin("bvsub", BVLit64(0, 64), low), low))))
+		}
+	}
+	m["(*math/big.Int).Lsh"] = func(x *Exec, fr *Frame, st *State, args []Value, pos token.Pos) []Outcome {
+		x.oblige(fr, st, "nil", x.src(fr.fn, pos, "bigint")+"(recv)", pos, And(Not(Eq(args[0].L[0], IntLit(0))), Not(Eq(args[1].L[0], IntLit(0)))))
+		am, an := bigSM(x, st, args[1])
+		sh := ZeroExt(args[2].L[0], 128)
+		shifted := BVBin("bvshl", am, sh)
+		fits := And(BVCmp("bvult", sh, BVLit64(128, 128)), Eq(BVBin("bvlshr", shifted, sh), am))
+		x.setGhost(st, "bigval:"+args[0].L[0].String(), x.define(st, "bigval", Ite(fits, shifted, x.c.Fresh("bigval_wide", SBV(128)))))
+		x.setGhost(st, "bigneg:"+args[0].L[0].String(), an)
+		x.c.note("assumed: big.Int.Lsh sets the receiver to x << n (tracked when the result stays below 2^128)")
+		return retOne(st, args[0])
 	}
 	m["(*math/big.Int).SetBytes"] = func(x *Exec, fr *Frame, st *State, args []Value, pos token.Pos) []Outcome {
 		x.oblige(fr, st, "nil", x.src(fr.fn, pos, "bigint")+"(recv)", pos, Not(Eq(args[0].L[0], IntLit(0))))
 		v := Ite(BVCmp("bvule", sl(args[1]).ln, BVLit64(16, 64)), beVal(x, st, args[1]), x.c.Fresh("bigval_wide", SBV(128)))
 		x.setGhost(st, "bigval:"+args[0].L[0].String(), x.define(st, "bigval", v))
+		x.setGhost(st, "bigneg:"+args[0].L[0].String(), False)
 		x.c.note("assumed: big.Int.SetBytes interprets its argument as a big-endian unsigned integer (values up to 128 bits tracked)")
 		return retOne(st, args[0])
 	}
@@ -441,6 +494,7 @@ func DefaultModels() map[string]Model {
 		ok := x.c.Fresh("setstring_ok", SBool)
 		x.havocReachable(st, args[0])
 		x.setGhost(st, "bigval:"+args[0].L[0].String(), x.c.Fresh("bigval", SBV(128)))
+		x.setGhost(st, "bigneg:"+args[0].L[0].String(), x.c.Fresh("bigneg", SBool))
 		x.c.note("assumed: big.Int.SetString returns its receiver and true, or nil and false")
 		return []Outcome{{St: st, Kind: OutReturn, Rets: []Value{{T: args[0].T, L: []*Term{Ite(ok, args[0].L[0], IntLit(0))}}, boolV(ok)}}}
 	}
@@ -460,11 +514,12 @@ func DefaultModels() map[string]Model {
 		x.c.note("assumed: big.Int.Bytes returns the minimal big-endian bytes of the value (non-negative values below 2^128)")
 		return retOne(st, out)
 	}
-	for _, meth := range []string{"Add", "Sub", "Mul", "Div", "Mod", "Quo", "Rem", "Set", "SetUint64", "SetInt64", "Lsh", "Rsh", "Exp", "Neg", "Abs", "And", "Or"} {
+	for _, meth := range []string{"Add", "Sub", "Mul", "Div", "Mod", "Quo", "Rem", "Set", "SetUint64", "SetInt64", "Rsh", "Exp", "Neg", "Abs", "And", "Or"} {
 		m["(*math/big.Int)."+meth] = func(x *Exec, fr *Frame, st *State, args []Value, pos token.Pos) []Outcome {
 			x.oblige(fr, st, "nil", x.src(fr.fn, pos, "bigint")+"(recv)", pos, Not(Eq(args[0].L[0], IntLit(0))))
 			x.havocReachable(st, args[0])
 			x.setGhost(st, "bigval:"+args[0].L[0].String(), x.c.Fresh("bigval", SBV(128)))
+			x.setGhost(st, "bigneg:"+args[0].L[0].String(), x.c.Fresh("bigneg", SBool))
 			x.c.note("assumed: math/big.Int arithmetic methods write only their receiver and return it; numeric values not modelled")
 			return retOne(st, args[0])
 		}
@@ -736,6 +791,8 @@ func (x *Exec) ghostInit(key string) *Term {
 		return t
 	case strings.HasPrefix(key, "bigval:"):
 		return x.c.Named("G0_"+key, SBV(128))
+	case strings.HasPrefix(key, "bigneg:"):
+		return x.c.Named("G0_"+key, SBool)
 	case strings.HasPrefix(key, "memwords:"):
 		return x.c.Named("G0_"+key, SArr(SBV(32), SBV(64)))
 	}
@@ -846,6 +903,15 @@ func registerSpecBuiltins(x *Exec) {
 			}
 			return scalar(types.Typ[types.Uint64], Extract(63, 0, v))
 		}
+	}
+	// bigneg(p): the tracked value of the *big.Int p is negative
+	x.specBuiltins["bigneg"] = func(sc *specScope, n *ECall) Value {
+		p := x.evalSpec0(sc, n.Args[0], nil)
+		ref := p.L[0]
+		if _, isI := p.T.Underlying().(*types.Interface); isI {
+			ref = p.L[1]
+		}
+		return boolV(x.ghostGet(sc.st, "bigneg:"+ref.String()))
 	}
 	// memsize(mem), memword(mem, off): ghost state of a runtime.Memory value
 	x.specBuiltins["memsize"] = func(sc *specScope, n *ECall) Value {
